@@ -440,6 +440,26 @@ static Outcome run_pbkdf2(const Case &c) {
       harness_error("RFC 8018 loop and PKCS5_PBKDF2_HMAC disagree (plen=" + std::to_string(plen) + " slen=" + std::to_string(slen) +
                     " c=" + std::to_string(cc) + " dkLen=" + std::to_string(dk) + ")");
   }
+  // history: in one case of three the derivation is preceded by one with a RELATED password or salt (same length; same first or last
+  // half, the rest different; or only the last byte different): results must not depend on what was derived before
+  if (((uint64_t)a[2] >> 4) % 3 == 0 && (plen > 0 || slen > 0)) {
+    std::string P2 = P, S2 = S;
+    int how = (int)(((uint64_t)a[2] >> 9) % 4);
+    auto scramble = [&](std::string &t, size_t from, size_t to) {
+      for (size_t i = from; i < to && i < t.size(); i++) t[i] = (char)(t[i] ^ (0x5a + i));
+    };
+    if (how == 0) scramble(P2, P2.size() / 2, P2.size());
+    else if (how == 1) scramble(P2, 64, P2.size()), scramble(P2, P2.size() > 64 ? P2.size() : (P2.size() ? P2.size() - 1 : 0), P2.size());
+    else if (how == 2) scramble(S2, S2.size() / 2, S2.size());
+    else scramble(P2, P2.size() ? P2.size() - 1 : 0, P2.size());
+    if (P2 == P && S2 == S && !P2.empty()) P2[P2.size() - 1] ^= 1;
+    uint8_t *pw2 = exact(P2.data(), P2.size()), *sa2 = exact(S2.data(), S2.size());
+    uint8_t tmp[40];
+    c01_pbkdf2_sha256(pw2, P2.size(), sa2, S2.size(), 1, tmp, sizeof tmp);
+    free(pw2);
+    free(sa2);
+    o.cls("derivation-with-related-password-or-salt-just-before");
+  }
   uint8_t *pw = exact(P.data(), P.size());
   uint8_t *sa = exact(S.data(), S.size());
   uint8_t *out = (uint8_t *)malloc((size_t)dk);  // exact size: an over-long final copy is an ASan report
@@ -751,6 +771,8 @@ static Outcome run_long(const Case &c) {
     if (!(alg == 3 || alg == a || (alg == 4 && a != 0))) continue;
     if (mode <= 3 || (mode >= 5 && !(a == 0 && single_ok))) run_long1(o, a, total, mode >= 5 ? mode - 5 : mode, blk);  // SHA-256 has a 64-bit counter: in the combined modes only the single update
     if ((mode == 4 || mode >= 5) && single_ok) run_long1(o, a, total, 4, blk);
+    // 1..8 bytes below a multiple of 2^29 bytes: the message itself stays below 2^32 bits, its padding crosses
+    if (alg == 3 && a != 0 && o.ok) run_long1(o, a, ((int64_t)1 << 29) - 1 - (int64_t)((uint64_t)c[0].a[3] % 8), 3, blk);
     if (mode == 4 && !single_ok) run_long1(o, a, total, 0, blk);
   }
   return o;
